@@ -58,7 +58,7 @@ func (rt *Router) Lookup(path string) (data interface{}, params Params, found bo
 	if len(rt.param.node) == 1 {
 		return nil, nil, false
 	}
-	nd, params, found := rt.param.lookup(path, make([]Param, 0, rt.SizeHint), 1)
+	nd, params, found := rt.param.lookup(path, make([]Param, 0, rt.SizeHint), rootIndex)
 	if !found {
 		return nil, nil, false
 	}
@@ -98,7 +98,7 @@ func (rt *Router) Build(records []Record) error {
 	for _, r := range statics {
 		rt.static[r.Key] = r.Value
 	}
-	if err := rt.param.build(params, 1, 0, make(map[int]struct{})); err != nil {
+	if err := rt.param.build(params, rootIndex, 0, make(map[int]struct{})); err != nil {
 		return err
 	}
 	return nil
@@ -134,6 +134,16 @@ func newDoubleArray() *doubleArray {
 		bc:   []baseCheck{0},
 		node: []*node{nil}, // A start index is adjusting to 1 because 0 will be used as a mark of non-existent node.
 	}
+}
+
+// rootIndex is the index of the root element of the double array.
+const rootIndex = 1
+
+// isFree reports whether the element i of the double array is unused.
+// The root is in use from the start, but no edge leads to it: it carries no CHECK (and its BASE may
+// be zero), so that its content alone does not tell it from an unused element.
+func (da *doubleArray) isFree(i int) bool {
+	return i != rootIndex && da.bc[i].IsEmpty()
 }
 
 // baseCheck contains BASE, CHECK and Extra flags.
@@ -311,7 +321,7 @@ func (da *doubleArray) setCheck(i int, check byte) {
 func (da *doubleArray) findEmptyIndex(start int) int {
 	i := start
 	for ; i < len(da.bc); i++ {
-		if da.bc[i].IsEmpty() {
+		if da.isFree(i) {
 			break
 		}
 	}
@@ -331,7 +341,7 @@ func (da *doubleArray) findBase(siblings []sibling, start int, usedBase map[int]
 			if len(da.bc) <= next {
 				da.bc = append(da.bc, make([]baseCheck, next-len(da.bc)+1)...)
 			}
-			if !da.bc[next].IsEmpty() {
+			if !da.isFree(next) {
 				break
 			}
 		}
